@@ -104,6 +104,21 @@ func c14FinAnswered(c *Ctx, htcp, send *ssa.Function) {
 		for _, b := range fn.Blocks {
 			for _, in := range b.Instrs {
 				if st, ok := in.(*ssa.Store); ok && isStateAddr(st.Addr) {
+					// a state object the callee has just created (NewState result, literal) is not the one handleTCP looked up
+					if fa, ok := st.Addr.(*ssa.FieldAddr); ok {
+						fresh := false
+						switch x := fa.X.(type) {
+						case *ssa.Alloc:
+							fresh = x.Heap
+						case *ssa.Call:
+							if f := x.Call.StaticCallee(); f != nil && f.Name() == "NewState" {
+								fresh = true
+							}
+						}
+						if fresh {
+							continue
+						}
+					}
 					c.Violate(rule, "callee writes the connection state: "+shortFn(fn), p.InstrPos(st), "a function called from handleTCP changes State."+stateField+" behind the state machine's back (premise of the state analysis)")
 				}
 			}
